@@ -678,6 +678,12 @@ class Interp:
             return r
         return None
 
+    def ev_NamedExpr(self, e, env):
+        v = self.eval(e.value, env)
+        if isinstance(e.target, ast.Name):
+            env[e.target.id] = v  # (name := value) binds in the enclosing function
+        return v
+
     def ev_IfExp(self, e, env):
         c = self.to_cond(self.eval(e.test, env), e.test)
         if self.decide(c, "ifexp %s" % norm(e.test)[:40]):
@@ -1057,6 +1063,7 @@ class Interp:
             s = args.get("variable_list")
             sdesc = self._sdesc(s)
             n = P.mk("with_vars", recv.n, sdesc)
+            self.events.append({"kind": "with_vars", "E": recv.n, "S": sdesc, "S_tt": s.tt if isinstance(s, VS) else None, "result": n, "outcome": "ok", "site": site})
             if isinstance(s, VS) and (s.tt & self.allowed) == 0:
                 P.add_rule([], n, "no variable to look for: the selected sub-list is empty")
             return TL(n)
